@@ -78,6 +78,15 @@ func (s *Service) CreatePin(ctx context.Context, ref boson.Address, traverse boo
 	}
 
 	if traverse {
+		// repeating calls are idempotent: an already pinned reference
+		// must not have its chunks' pin counters raised again
+		has, err := s.HasPin(ref)
+		if err != nil {
+			return err
+		}
+		if has {
+			return nil
+		}
 		if err := s.traverser.Traverse(ctx, ref, iterFn); err != nil {
 			return fmt.Errorf("traversal of %q failed: %w", ref, err)
 		}
